@@ -66,7 +66,9 @@ G(name="dns_decode_query", harness="h_dns.c", entry="h_dns_decode", defs=["H_QR=
   checks=PARSE_CHECKS, discard_cls=PARSE_DISCARD, props={"C12": "all", "C05": "safety"}, min_obl=100, timeout=600, cost=30,
   what="dns_decode, query direction (what the server runs on every datagram): exact-size datagram, arbitrary content")
 for tname, cost in (("T_NULL", 20), ("T_PRIVATE", 20), ("T_A", 20), ("T_CNAME", 20), ("T_MX", 200), ("T_SRV", 200), ("T_TXT", 20)):
-    G(name="dns_decode_answer_" + tname, tier=("thorough" if tname in ("T_MX", "T_SRV") else "quick"), harness="h_dns.c", entry="h_dns_decode", defs=["H_QR=QR_ANSWER", "H_TYPE=" + tname], style="legacy",
+    # MX/SRV: the SAT/SMT query does not finish (kissat, z3, cvc5: > 15 min; 64 KB names[250][256] with symbolic rows): kept as
+    # work in progress, part of NO check (DESIGN 11.7)
+    G(name="dns_decode_answer_" + tname, wip=(tname in ("T_MX", "T_SRV")), tier=("thorough" if tname in ("T_MX", "T_SRV") else "quick"), harness="h_dns.c", entry="h_dns_decode", defs=["H_QR=QR_ANSWER", "H_TYPE=" + tname], style="legacy",
       enforce=["dns_decode"], loops="dns.inv", loop_fns=["dns_decode"], checks=PARSE_CHECKS, discard_cls=PARSE_DISCARD,
       props={"C12": "all", "C06": "safety"}, min_obl=100, timeout=600, cost=cost, mem_gb=24,
       what="dns_decode, answer direction (what the client runs on every reply), question type %s (case split on the value the real readshort returns for the type field): exact-size datagram, arbitrary content" % tname)
